@@ -728,10 +728,13 @@ class MyPyAstVisitor:
         unanalyzed_type: mp_types.Type | None,
         is_static: bool = True,
     ) -> list[Attribute]:
-        assert isinstance(lvalue, mp_nodes.NameExpr | mp_nodes.MemberExpr | mp_nodes.TupleExpr)
         attributes: list[Attribute] = []
 
-        if hasattr(lvalue, "name"):
+        # Starred targets: "first, *self.rest = values"
+        if isinstance(lvalue, mp_nodes.StarExpr):
+            lvalue = lvalue.expr
+
+        if isinstance(lvalue, mp_nodes.NameExpr | mp_nodes.MemberExpr):
             if self._is_attribute_already_defined(lvalue.name):
                 return attributes
 
@@ -739,19 +742,12 @@ class MyPyAstVisitor:
                 self._create_attribute(lvalue, unanalyzed_type, is_static),
             )
 
-        elif hasattr(lvalue, "items"):
-            lvalues = list(lvalue.items)
-            for lvalue_ in lvalues:
-                if not hasattr(lvalue_, "name"):  # pragma: no cover
-                    raise AttributeError("Expected value to have attribute 'name'.")
+        elif isinstance(lvalue, mp_nodes.TupleExpr | mp_nodes.ListExpr):
+            # The targets can be nested: "self.a, (self.b, self.c) = 1, (2, 3)"
+            for lvalue_ in lvalue.items:
+                attributes.extend(self._parse_attributes(lvalue_, unanalyzed_type, is_static))
 
-                if self._is_attribute_already_defined(lvalue_.name):
-                    continue
-
-                attributes.append(
-                    self._create_attribute(lvalue_, unanalyzed_type, is_static),
-                )
-
+        # Other targets, like the item assignment "self.cache[key] = value", don't define an attribute
         return attributes
 
     def _is_attribute_already_defined(self, value_name: str) -> bool:
